@@ -1501,6 +1501,27 @@ fn run_seq(cx: &mut Ctx, stream: &str, ops: &[Op]) {
                     Op::SearchP { skip, limit, .. } => Some((*skip, *limit, r.last_total.unwrap_or(usize::MAX))),
                     _ => None,
                 };
+                // small_index_search_is_exact (Lean): a default-configuration index (m0 = 32,
+                // ef_construction = 200, ef_search = 50) over at most 32 vectors is exact, so an
+                // answer taken from a live cached index must ALSO be the exact top-k
+                if let (true, Ok(v)) = (live_before, res) {
+                    let empty = Space::default();
+                    let probe: Option<(&Space, &Vec<i64>, usize, usize, usize)> = match op {
+                        Op::Search { q, k } => Some((&r.dflt, q, *k, 0, *k)),
+                        Op::SearchP { q, k, skip, limit } => Some((&r.dflt, q, limit.unwrap_or(usize::MAX), *skip, (skip + limit.unwrap_or(*k)).min(*k))),
+                        Op::CSearch { c, q, k } => Some((r.named.get(c).unwrap_or(&empty), q, *k, 0, *k)),
+                        _ => None,
+                    };
+                    if let Some((sp, q, k, skip, inner)) = probe {
+                        if sp.index_consulted(q.len()) && sp.items.len() <= 32 {
+                            let mut scratch = Vec::new();
+                            oracle_page("small-index", v, q, k, skip, inner, Metric::Cos, sp, None, false, &mut scratch);
+                            let exact = !scratch.iter().any(|x| x.kind == "missed_match" || x.kind == "not_topk");
+                            cx.rep.hit("search.small_live_index.checked_exact");
+                            cx.rep.compare(&format!("{stream}.small_index_is_exact"), || json!({"ops": ops_json(&ops[..=i]), "impl_result": format!("{res:?}")}), if exact { "exact" } else { "not-exact" }, "exact");
+                        }
+                    }
+                }
                 let (a, b) = compare_search(cx.rep, stream, op, res, &ma, page);
                 let sname = format!("{stream}.{}", op.tag());
                 cx.rep.compare(&sname, || json!({"ops": ops_json(&ops[..=i]), "impl_result": format!("{res:?}"), "model_raw": ma.raw}), &a, &b);
@@ -1891,6 +1912,11 @@ fn hnsw_case(rep: &mut Report, m: &mut Model, r: &mut Rng, directed: Option<(&st
             truth.sort();
             let exact = res.iter().zip(truth.iter()).all(|(a, b)| keys[a.0] == b.0) && res.len() == k.min(n);
             rep.hit(if exact { "hnsw.recall.exact_topk" } else { "hnsw.recall.approximate" });
+            // small_index_search_is_exact (Lean): n <= m0, n <= ef_construction, n <= max(ef, k)
+            if n <= cm0 && n <= efc && n <= ef.max(k) {
+                rep.hit("hnsw.small_index_regime");
+                rep.compare(&format!("{stream}.small_index_is_exact"), || json!({"trace": trace, "result": format!("{res:?}")}), if exact { "exact" } else { "not-exact" }, "exact");
+            }
         }
     };
     let mut pending = queries.clone();
@@ -1948,6 +1974,73 @@ fn hnsw_stream(rep: &mut Report, m: &mut Model, root: &Rng, scale: u64) {
     hnsw_case(rep, m, &mut r, Some(("zeros-multilayer", vec![vec![0, 0], vec![1, 0], vec![0, 0], vec![0, 1], vec![1, 1], vec![-1, 0], vec![0, 0], vec![2, 1]], vec![(vec![1, 0], 3, 2), (vec![0, 1], 8, 1)], (2, 4, 3, 2.0), HNSWDistanceMetric::Cosine)));
     for _ in 0..60 * scale {
         hnsw_case(rep, m, &mut r, None);
+    }
+}
+
+
+/// Inputs outside the run's key / name alphabet (`[a-z0-9]+`) and the explicit-index entry points:
+/// what the real engine does is recorded, not judged (candidate findings are reported to the
+/// coordinator; until they are decided these stay observations).
+fn observe_namespaces(rep: &mut Report) {
+    // (1) a key that itself starts with `emb:`: the cached-index path strips the storage prefix
+    //     from keys that `list_keys` has already stripped once
+    let eng = VectorEngine::new();
+    eng.store_embedding("emb:x", vec![1.0, 0.0]).ok();
+    eng.store_embedding("x", vec![0.0, 1.0]).ok();
+    let brute = conv(eng.search_similar(&[1.0, 0.0], 1));
+    eng.build_and_cache_index(HNSWConfig::default()).ok();
+    let cached = conv(eng.search_similar(&[1.0, 0.0], 1));
+    rep.observe(json!({
+        "what": "keys 'emb:x' = [1,0] and 'x' = [0,1]; search_similar([1,0], 1) without and with a cached index (the cached path applies strip_prefix(\"emb:\") to keys that are already bare)",
+        "class_if_judged": "vector_engine.search_similar/cached_index_strips_key_prefix",
+        "brute_force": format!("{brute:?}"),
+        "with_cached_index": format!("{cached:?}"),
+        "same_key": brute.as_ref().ok().and_then(|b| b.first().map(|x| x.0.clone())) == cached.as_ref().ok().and_then(|b| b.first().map(|x| x.0.clone())),
+    }));
+    // (2) a named collection called `_default` shares the cache slot of the default collection
+    let eng = VectorEngine::new();
+    eng.store_in_collection("_default", "incoll", vec![0.0, 1.0]).ok();
+    eng.store_embedding("indefault", vec![1.0, 0.0]).ok();
+    let before = conv(eng.search_in_collection("_default", &[0.0, 1.0], 5));
+    eng.build_and_cache_index(HNSWConfig::default()).ok();
+    let after = conv(eng.search_in_collection("_default", &[0.0, 1.0], 5));
+    rep.observe(json!({
+        "what": "collection '_default' holds key 'incoll'; default collection holds 'indefault'; build_and_cache_index() (default collection), then search_in_collection('_default', ..): the cache entry name of the default collection is a legal collection name",
+        "class_if_judged": "vector_engine.search_in_collection/default_cache_slot_shared",
+        "before_build": format!("{before:?}"),
+        "after_build": format!("{after:?}"),
+        "returns_key_of_other_collection": after.as_ref().map_or(false, |r| r.iter().any(|x| x.0 == "indefault")),
+    }));
+    // (3) collection names containing the storage separator: `a` and `a:emb:b` overlap
+    let eng = VectorEngine::new();
+    eng.store_in_collection("a:emb:b", "k", vec![1.0, 0.0]).ok();
+    let leak = conv(eng.search_in_collection("a", &[1.0, 0.0], 5));
+    rep.observe(json!({
+        "what": "store_in_collection('a:emb:b', 'k', ..) then search_in_collection('a', ..): storage keys are 'coll:<name>:emb:<key>' with no escaping",
+        "class_if_judged": "vector_engine.search_in_collection/collection_prefix_overlap",
+        "search_in_a": format!("{leak:?}"),
+    }));
+    // (4) search_with_hnsw / search_with_hnsw_and_metric hand the query to the index unchecked
+    //     (the cached path checks the dimension since 768f5ff8; the explicit path does not)
+    let eng = VectorEngine::new();
+    eng.store_embedding("a", vec![1.0, 0.0, 0.0]).ok();
+    eng.store_embedding("b", vec![0.0, 1.0, 0.0]).ok();
+    if let Ok((idx, keys)) = eng.build_hnsw_index(HNSWConfig::default()) {
+        let same = guarded(AssertUnwindSafe(|| conv(eng.search_with_hnsw(&idx, &keys, &[1.0, 0.0, 0.0], 2))));
+        let longer = guarded(AssertUnwindSafe(|| conv(eng.search_with_hnsw(&idx, &keys, &[1.0, 0.0, 0.0, 5.0], 2))));
+        let shorter = guarded(AssertUnwindSafe(|| conv(eng.search_with_hnsw(&idx, &keys, &[1.0, 0.0], 2))));
+        rep.observe(json!({
+            "what": "search_with_hnsw(index over dim-3 vectors, query of dim 3 / 4 / 2)",
+            "class_if_judged": "vector_engine.search_with_hnsw/query_dimension_not_checked",
+            "dim3": format!("{same:?}"),
+            "dim4": format!("{longer:?}"),
+            "dim2": format!("{shorter:?}"),
+        }));
+        // contract of the explicit path on a well-dimensioned query: keys of the mapping, true scores, <= k, distinct
+        if let Ok(Ok(r)) = &same {
+            let ok = r.len() <= 2 && r.iter().map(|x| &x.0).collect::<BTreeSet<_>>().len() == r.len() && r.iter().all(|x| keys.contains(&x.0));
+            rep.hit(if ok { "explicit_index.shape_ok" } else { "explicit_index.shape_BAD" });
+        }
     }
 }
 
@@ -2052,6 +2145,7 @@ fn main() {
     bits_stream(&mut rep, &mut m, &root, scale);
     hnsw_stream(&mut rep, &mut m, &root, scale);
     observe_foreign_index(&mut rep);
+    observe_namespaces(&mut rep);
 
     rep.expected_branches = ["model.ranked", "model.index", "model.ann", "model.zero", "model.err", "repr.dense", "repr.sparse", "err.dim_mismatch", "err.not_found", "err.empty_vector", "err.invalid_top_k", "err.coll_exists", "err.coll_not_found"]
         .iter()
